@@ -24,7 +24,20 @@ ASSUMPTIONS = [
 ]
 
 
-def grammar_snapshot(g, names):
+def _refinement_state(o):
+    """The parameters of a library refinement object (bounds, option lists, probability matrices ...)
+    by value; user-written metahandlers of the harness keep call counters and are left out."""
+    if not type(o).__module__.startswith("geneticengine"):
+        return None
+    out = {}
+    for k, v in vars(o).items():
+        if hasattr(v, "tolist"):
+            v = v.tolist()
+        out[k] = repr(v)
+    return out
+
+
+def grammar_snapshot(g, names, mh_objects=()):
     def nm(t):
         return names.get(t, repr(t))
 
@@ -39,6 +52,8 @@ def grammar_snapshot(g, names):
         "non_terminals": sorted(nm(x) for x in g.non_terminals),
         "weights": {nm(k): v for k, v in g.get_weights().items()},
         "gengy": gengy,
+        # the refinements inside the productions' field types are part of the grammar, too
+        "refinements": {f"{cn}.{fn}#{i}": _refinement_state(o) for i, (cn, fn, _, o) in enumerate(mh_objects)},
         "abstract_dist_to_t": {nm(k): {nm(k2): v2 for k2, v2 in v.items() if v2 < 1000000} for k, v in list(g.abstract_dist_to_t.items())},
         "starting_symbol": nm(g.starting_symbol),
         "considered": [nm(x) for x in g.considered_subtypes],
@@ -56,7 +71,7 @@ def snap_diff(a, b):
 
 class ReadOnly(Facet):
     name = "grammar_read_only"
-    flags = Flags(dependent=True, user_mh=True, infeasible=True, weights=True, max_concrete=6, unproductive=True)
+    flags = Flags(dependent=True, user_mh=True, infeasible=True, weights=True, max_concrete=6, unproductive=True, weighted_string=True, interval_range=True, float_refined=True, string_refined=True)
     reps = ("tree", "ge", "sge", "dsge", "stack")
 
     def budget(self, tier):
@@ -86,13 +101,13 @@ class ReadOnly(Facet):
             return
         g = w.grammar
         names = w.mat.names
-        s0 = grammar_snapshot(g, names)
+        s0 = grammar_snapshot(g, names, w.mat.mh_objects)
         rec.label("rep:" + rep)
         try:
             w.build()
         except Exception:  # noqa: BLE001
             rec.discard()
-        sb = grammar_snapshot(g, names)
+        sb = grammar_snapshot(g, names, w.mat.mh_objects)
         d = snap_diff(s0, sb)
         if d:
             rec.fail(f"C10/modified/{d[0]}/by-construction-of-{rep}", f"building the representation changed grammar.{d[0]}: {d[1]} -> {d[2]}; {spec_str(case['spec'])}")
@@ -112,7 +127,7 @@ class ReadOnly(Facet):
                         w.phenotype(i)
                     except Exception:  # noqa: BLE001
                         state["failed_ops"] += 1
-            s1 = grammar_snapshot(g, names)
+            s1 = grammar_snapshot(g, names, w.mat.mh_objects)
             d = snap_diff(s0, s1)
             if d:
                 k, a, b = d
